@@ -241,6 +241,7 @@ fn replay(path: &str) -> i32 {
                 "C04" => props_sched::c04_families(tier),
                 "C16" => props_sched::c16_families(tier),
                 "C14" => props_sched::c14_families(tier),
+                "C15" => props_sched::c15_families(tier),
                 _ => vec![],
             };
             let fam = match fams.iter().find(|f| Some(f.name.as_str()) == v["family"].as_str()) {
@@ -324,7 +325,12 @@ fn main() {
                 "C11" => check_seq("C11", tier),
                 "C19" => check_seq("C19", tier),
                 "C12" => check_c12::check(tier, nthreads()),
-                "C20" => check_c20::check(tier),
+                "C20" => {
+                    let a = check_c20::check(tier);
+                    let b = check_c20::policy_differential(tier, nthreads());
+                    let t = a.tier.clone();
+                    report::merge("C20", &t, vec![("server_processes_per_configuration", a), ("eviction_policy_differential_in_process", b)])
+                }
                 "C13" => check_c13::check(tier, nthreads()),
                 "C17" => check_c17::check(tier, nthreads()),
                 "C18" => check_c18::check(tier, nthreads()),
@@ -335,7 +341,12 @@ fn main() {
                     let t = a.tier.clone();
                     report::merge("C14", &t, vec![("sequential_histories_all_victims", a), ("concurrent_stores_all_schedules", b)])
                 }
-                "C15" => check_seq("C15", tier),
+                "C15" => {
+                    let a = check_seq("C15", tier);
+                    let b = check_sched::check("C15", tier, props_sched::c15_families(tier), &["usage-drift-concurrent", "deadlock", "livelock", "no-panic"], nthreads());
+                    let t = a.tier.clone();
+                    report::merge("C15", &t, vec![("sequential_histories", a), ("concurrent_exact_programs_all_schedules", b)])
+                }
                 _ => {
                     eprintln!("unknown property {}", id);
                     std::process::exit(2);
@@ -353,6 +364,7 @@ fn main() {
                 "C03" => props_sched::c03_families(tier),
                 "C04" => props_sched::c04_families(tier),
                 "C16" => props_sched::c16_families(tier),
+                "C15" => props_sched::c15_families(tier),
                 _ => props_sched::c14_families(tier),
             };
             sut::set_quiet(true);
